@@ -230,6 +230,124 @@ theorem isect_num (k : Kind) (a b : Sk) (wa : a.WF) (wb : b.WF) (hn : a.num ≠ 
 example : exN.WF ∧ exN.num ≠ 0 ∧ exN.maxHash = 0 ∧ exN.mins.length ≤ exN.num ∧
     checkCompatible exN exN = .ok () := ⟨exN_wf, by decide, rfl, by decide, by simp [checkCompatible]⟩
 
+/-! ### the C API wrappers (src/core/src/ffi/minhash.rs)
+
+The exported `kmerminhash_merge / _add_from / _remove_from / _remove_many / _add_many / _count_common`
+forward to the methods the theorems above are about.  `kmerminhash_intersection` builds a sketch of
+its own, `kmerminhash_intersection_union_size` handles the error itself. -/
+
+/-- `clear()` keeps the invariant and every parameter -/
+theorem clear_sc {a : Sk} (ha : Sc a) : Sc a.clear := by
+  obtain ⟨_, hn, hM⟩ := ha
+  refine ⟨⟨List.Pairwise.nil, ?_⟩, hn, hM⟩
+  intro ab h
+  cases hab : a.abunds <;> simp [Sk.clear, hab] at h
+  subst h; rfl
+
+/-- **T-capi_isect** (clause "the reported intersection … equal[s] the sample of the corresponding set
+operation", for the sketch handed out by the C API; scaled sketches).  Whatever the ceiling of the
+operands is — `maxHash` is any non-zero number here, not necessarily one that a scaled value maps to —
+the returned sketch holds exactly the hashes of `a ∩ b`, sorted, and has every parameter of `a`,
+`maxHash` included: it is compatible with `a` (and merging it back into `a` is accepted). -/
+theorem capi_intersection (a b : Sk) (ha : Sc a) (hle : ∀ h ∈ a.mins, h ≤ a.maxHash) (hb : SInc b.mins)
+    (hc : checkCompatible a b = .ok ()) :
+    ∃ r, capiIntersection a b = .ok r ∧ r.mins = inter a.mins b.mins ∧ r.WF ∧
+      r.num = a.num ∧ r.maxHash = a.maxHash ∧ r.ksize = a.ksize ∧ r.seed = a.seed ∧ r.mol = a.mol ∧
+      r.abunds.isSome = a.abunds.isSome ∧ checkCompatible a r = .ok () := by
+  have hi := intersection_scaled .vec ha.1.1 hb ha.2.1 hc
+  refine ⟨a.clear.addMany .vec (inter a.mins b.mins), ?_, ?_⟩
+  · simp [capiIntersection, hi, bind, Except.bind, pure, Except.pure]
+  rw [addMany_eq]
+  obtain ⟨x1, x2, x3, x4, x5, x6, x7, _⟩ :=
+    fold_scaled .vec ((inter a.mins b.mins).map (fun h => (h, 1))) a.clear (clear_sc ha) (by simp)
+  have hm : (a.clear.addManyAb .vec ((inter a.mins b.mins).map (fun h => (h, 1)))).mins = inter a.mins b.mins := by
+    apply sinc_ext x1.1.1 (sinc_filter _ ha.1.1)
+    intro z
+    rw [x7]
+    constructor
+    · rintro (h | ⟨p, hp, rfl, _⟩)
+      · simp [Sk.clear] at h
+      · obtain ⟨y, hy, rfl⟩ := List.mem_map.1 hp
+        exact hy
+    · intro hz
+      refine Or.inr ⟨(z, 1), List.mem_map.2 ⟨z, hz, rfl⟩, rfl, ?_⟩
+      exact hle z ((mem_inter a.mins b.mins z).1 hz).1
+  have hp : a.clear.maxHash = a.maxHash ∧ a.clear.ksize = a.ksize ∧ a.clear.seed = a.seed ∧
+      a.clear.mol = a.mol ∧ a.clear.num = a.num ∧ a.clear.abunds.isSome = a.abunds.isSome := by
+    cases hab : a.abunds <;> simp [Sk.clear, hab]
+  refine ⟨hm, x1.1, ?_, by rw [x2, hp.1], by rw [x3, hp.2.1], by rw [x4, hp.2.2.1], by rw [x5, hp.2.2.2.1],
+    by rw [x6, hp.2.2.2.2.2], ?_⟩
+  · rw [x1.2.1, ha.2.1]
+  · simp [checkCompatible, x2, x3, x4, x5, hp.1, hp.2.1, hp.2.2.1, hp.2.2.2.1]
+example : Sc exA ∧ (∀ h ∈ exA.mins, h ≤ exA.maxHash) ∧ SInc exB.mins ∧ checkCompatible exA exB = .ok () :=
+  ⟨⟨exA_wf, rfl, by decide⟩, by decide, exB_wf.1, exAB_compat⟩
+
+/-- **T-capi_reject**: `kmerminhash_intersection` refuses incompatible operands with the error of
+`check_compatible` and hands out no sketch.  `kmerminhash_intersection_union_size` does NOT: the code
+swallows the error and reports (0, 0) — what the model says here, and what the spec column of the
+driver flags (findings/C03.json). -/
+theorem capi_reject (a b : Sk) (e : Err) (hc : checkCompatible a b = .error e) :
+    capiIntersection a b = .error e ∧ capiIntersectionUnionSize a b = (0, 0) := by
+  have h := reject_all .vec a b e hc
+  constructor
+  · simp [capiIntersection, h.2.1, bind, Except.bind]
+  · simp [capiIntersectionUnionSize, h.2.2.1]
+example : checkCompatible exA { exB with seed := 7 } = .error .MismatchSeed := by
+  simp [checkCompatible, exA, exB]
+
+/-- … and on compatible scaled sketches it reports what `intersection_size` reports. -/
+theorem capi_isize (a b : Sk) (ha : SInc a.mins) (hb : SInc b.mins) (hn : a.num = 0)
+    (hc : checkCompatible a b = .ok ()) :
+    capiIntersectionUnionSize a b = ((inter a.mins b.mins).length, unionSize a.mins b.mins) := by
+  simp [capiIntersectionUnionSize, (isect .vec a b ha hb hn hc).2.1]
+example : SInc exA.mins ∧ SInc exB.mins ∧ exA.num = 0 ∧ checkCompatible exA exB = .ok () :=
+  ⟨exA_wf.1, exB_wf.1, rfl, exAB_compat⟩
+
+/-- the sorted pairs of `kmerminhash_set_abundances` are the given pairs -/
+theorem mem_sortPairs (ps : List (Nat × Nat)) (p : Nat × Nat) : p ∈ sortPairs ps ↔ p ∈ ps := by
+  have hins : ∀ (q : Nat × Nat) (l : List (Nat × Nat)), p ∈ insertPair q l ↔ p = q ∨ p ∈ l := by
+    intro q l
+    induction l with
+    | nil => simp [insertPair]
+    | cons x t ih =>
+      simp only [insertPair]
+      split
+      · simp
+      · simp only [List.mem_cons, ih]
+        constructor
+        · rintro (h | h | h)
+          · exact Or.inr (Or.inl h)
+          · exact Or.inl h
+          · exact Or.inr (Or.inr h)
+        · rintro (h | h | h)
+          · exact Or.inr (Or.inl h)
+          · exact Or.inl h
+          · exact Or.inr (Or.inr h)
+  induction ps with
+  | nil => simp [sortPairs]
+  | cons q t ih =>
+    have : sortPairs (q :: t) = insertPair q (sortPairs t) := rfl
+    rw [this, hins, List.mem_cons]
+    exact or_congr Iff.rfl ih
+
+/-- **T-capi_set_abundances** (scaled sketches, `clear = true`, positive abundances): the sketch
+holds exactly the given hashes under the ceiling — in whatever order they were passed. -/
+theorem capi_set_abundances_keys (a : Sk) (ha : Sc a) (ps : List (Nat × Nat)) (hpos : ∀ p ∈ ps, p.2 ≠ 0)
+    (z : Nat) :
+    z ∈ (capiSetAbundances a ps true).mins ↔ ∃ p ∈ ps, p.1 = z ∧ z ≤ a.maxHash := by
+  have hpos' : ∀ p ∈ sortPairs ps, p.2 ≠ 0 := fun p hp => hpos p ((mem_sortPairs ps p).1 hp)
+  obtain ⟨_, _, _, _, _, _, x7, _⟩ := fold_scaled .vec (sortPairs ps) a.clear (clear_sc ha) hpos'
+  have hM : a.clear.maxHash = a.maxHash := by cases hab : a.abunds <;> simp [Sk.clear, hab]
+  simp only [capiSetAbundances, if_true]
+  rw [x7, hM]
+  constructor
+  · rintro (h | ⟨p, hp, h1, h2⟩)
+    · simp [Sk.clear] at h
+    · exact ⟨p, (mem_sortPairs ps p).1 hp, h1, h2⟩
+  · rintro ⟨p, hp, h1, h2⟩
+    exact Or.inr ⟨p, (mem_sortPairs ps p).2 hp, h1, h2⟩
+example : Sc exE ∧ ∀ p ∈ [((7 : Nat), (2 : Nat)), (300, 1), (7, 3)], p.2 ≠ 0 := ⟨exE_sc, by decide⟩
+
 /-! ### T-sig_add — `Signature::add_sequence` / `add_protein` over several sketches
 
 `Model/SigAdd.lean`: `f s` is the call on ONE sketch (sketch afterwards, `Err` if any) for the fixed
